@@ -574,6 +574,8 @@ def dro_world(steps):
             fs.suppset(z <= 2, z >= -0.5)               # re-declaring the support of all scenarios: the last declaration stands
         elif s == "supp1":
             fs[1].suppset(z <= 0.5, z >= -3)
+        elif s == "expt1":
+            fs[1].exptset(rsome.E(z) <= 0.25)
         elif s == "k1":
             m.st(x >= z - 1)
         elif s == "k2":
@@ -614,6 +616,13 @@ DRO_HISTORIES = [
     (["suppB", "obj", "k1", "k2"], ["suppB", "obj", "k1", "k2"]),
     (["supp1", "suppB", "obj", "k1"], ["suppB", "obj", "k1"]),
     (["suppB", "supp1", "probA", "obj", "k1", "solve", "probB", "k3"], ["suppB", "supp1", "probB", "obj", "k1", "k3"]),
+    # a part of the ambiguity set changed AFTER a formulation / solve and nothing else declared afterwards: the next
+    # formulation must see the changed set
+    (["obj", "k1", "do_math", "suppB"], ["suppB", "obj", "k1"]),
+    (["obj", "k1", "k2", "solve", "supp1"], ["supp1", "obj", "k1", "k2"]),
+    (["obj", "k1", "do_math", "probB"], ["probB", "obj", "k1"]),
+    (["obj", "k1", "k2", "solve", "expt1"], ["expt1", "obj", "k1", "k2"]),
+    (["adapt", "obj", "k1", "dual", "do_math", "supp1", "probA"], ["adapt", "supp1", "probA", "obj", "k1"]),
 ]
 
 
